@@ -114,6 +114,34 @@ func checkC04(c *hx.Checker) {
 		{{257, 3}, {3, 259}}, {{4099}, {4099}}, {{1, 4099}, {4099, 3}}, {{7, 67, 5}, {5, 71}}, {{131, 129}, {129, 131}}} {
 		mm(ref.F32, sp[0], sp[1], "op", nil)
 	}
+	// extents up to 5 for plain and singly batched products (relations between extents: equal, multiples, square)
+	for _, mkn := range seqs([]int64{1, 2, 3, 4, 5}, 3, 3) {
+		m, k, n := int(mkn[0]), int(mkn[1]), int(mkn[2])
+		if m <= 3 && k <= 3 && n <= 3 {
+			continue
+		}
+		mm(ref.F32, []int{m, k}, []int{k, n}, "op", nil)
+		mm(ref.F32, []int{2, m, k}, []int{k, n}, "op", nil)
+		mm(ref.F32, []int{m, k}, []int{3, k, n}, "op", nil)
+		mm(ref.F32, []int{4, m, k}, []int{4, k, n}, "op", nil)
+	}
+	// values whose products cancel exactly (results that are exactly zero, rows of equal elements)
+	{
+		A := ref.FromF(ref.F32, []int{2, 4}, 1, -1, 2, -2, 0.5, 0.5, -0.5, -0.5)
+		B := ref.FromF(ref.F32, []int{4, 3}, 1, 2, 3, 1, 2, 3, 1, 2, 3, 1, 2, 3)
+		exp, err := ref.MatMul(A, B)
+		jobs = append(jobs, newJob("MatMul", nil, []*ref.T{A, B}, []*ref.T{exp}, err, hx.DCompute, hx.Dot, "op", nil, "cancellation", "cancellation"))
+		for _, withC := range []bool{false, true} {
+			var C *ref.T
+			if withC {
+				C = ref.FromF(ref.F32, []int{3}, 0, -0.0, 1)
+			}
+			expg, errg := ref.Gemm(A, B, C, 1, 1, false, false)
+			jobs = append(jobs, newJob("Gemm", nil, []*ref.T{A, B, C}, []*ref.T{expg}, errg, hx.DCompute, hx.Dot, "op", nil, fmt.Sprintf("cancellation C=%v", withC), "cancellation"))
+			expz, errz := ref.Gemm(A, B, C, 0, 0, false, false)
+			jobs = append(jobs, newJob("Gemm", []hx.Attr{hx.AFloat("alpha", 0), hx.AFloat("beta", 0)}, []*ref.T{A, B, C}, []*ref.T{expz}, errz, hx.DCompute, hx.Dot, "op", nil, fmt.Sprintf("alpha=beta=0 C=%v", withC), "cancellation"))
+		}
+	}
 	for _, dt := range gateDTs("MatMul", 0) {
 		for _, sp := range [][2][]int{{{2, 3}, {3, 2}}, {{3}, {3, 2}}, {{2, 3}, {3}}, {{3}, {3}}, {{2, 2, 3}, {3, 2}}, {{2, 1, 3}, {2, 3, 1}}, {{1, 2, 2, 3}, {3, 1, 3, 2}}, {{2, 3}, {2, 3}}} {
 			if dt != ref.F32 {
@@ -204,6 +232,35 @@ func checkC04(c *hx.Checker) {
 							jobs = append(jobs, newJob("Gemm", mattrs, []*ref.T{A, B2, nil}, nil, err, hx.DError, hx.Dot, "op", nil, fmt.Sprintf("mismatch tA=%v tB=%v %v", tA, tB, mkn)))
 						}
 					}
+				}
+			}
+		}
+	}
+	for _, mkn := range seqs([]int64{1, 2, 3, 4, 5}, 3, 3) {
+		M, K, N := int(mkn[0]), int(mkn[1]), int(mkn[2])
+		if M <= 3 && K <= 3 && N <= 3 {
+			continue
+		}
+		for _, tA := range []bool{false, true} {
+			for _, tB := range []bool{false, true} {
+				ash, bsh := []int{M, K}, []int{K, N}
+				var attrs []hx.Attr
+				if tA {
+					ash = []int{K, M}
+					attrs = append(attrs, hx.AInt("transA", 1))
+				}
+				if tB {
+					bsh = []int{N, K}
+					attrs = append(attrs, hx.AInt("transB", 1))
+				}
+				A, B := linFill(ref.F32, ash, 2), linFill(ref.F32, bsh, 5)
+				for _, cs := range [][]int{nil, {N}, {M, 1}} {
+					var C *ref.T
+					if cs != nil {
+						C = linFill(ref.F32, cs, 8)
+					}
+					exp, err := ref.Gemm(A, B, C, 1, 1, tA, tB)
+					jobs = append(jobs, newJob("Gemm", attrs, []*ref.T{A, B, C}, []*ref.T{exp}, err, hx.DCompute, hx.Dot, "op", nil, fmt.Sprintf("ext5 tA=%v tB=%v %v C%v", tA, tB, mkn, cs), "extents-to-5"))
 				}
 			}
 		}
